@@ -3,6 +3,7 @@ package harness
 import (
 	"encoding/json"
 	"fmt"
+	"log"
 	"os"
 	"os/exec"
 	"path/filepath"
@@ -13,6 +14,7 @@ import (
 	"time"
 
 	"github.com/crewjam/saml"
+	"github.com/crewjam/saml/logger"
 )
 
 // C09 - the message-consuming APIs are total.  Conformance of spec/Totality.tla with the
@@ -20,7 +22,10 @@ import (
 //   - no panic, no hang (watchdog), no crash of the process (deep documents run in a child);
 //   - on ParseXMLResponse / ParseResponse / ParseXMLArtifactResponse: assertion == nil iff
 //     err != nil, and every error is *saml.InvalidResponseError saying "Authentication failed";
-//   - deflated input inflating past 10 MB is refused, without the heap growing past 64 MB.
+//   - deflated input inflating past 10 MB is refused, without the heap growing past 64 MB;
+//   - the same nil-exactly-when-error / error type / constant message whatever becomes of the body of
+//     the artifact resolver's answer: a Read that fails or stalls before the first byte, half-way or in
+//     place of the end of the stream, a Close that fails after a valid, a truncated or an invalid body.
 // The verdict itself (accept / reject) is not dictated by the statement: a disagreement with
 // the model's prediction is drift.
 
@@ -158,6 +163,14 @@ func c09Judge(rep *Report, v *c09Vec, o *c09Obs) bool {
 		if v.In.Res != "" && v.In.Res != "ok" {
 			step = "resolver-" + v.In.Res
 		}
+		if v.In.Close == "err" {
+			// the body of the resolver's answer could not be closed cleanly
+			if v.In.Res == "ok" {
+				step = "resolver-ok"
+			}
+			step += ":close-error"
+			what += fmt.Sprintf(", response.Body.Close() fails after the %s body (model: the body is %s, the result stays %s)", c09BodyWord(&v.In), v.Pred.Body, v.Pred.Verdict)
+		}
 		rep.Violation("C09:"+c09Group(v)+":"+v.In.Entry+":"+step+":"+kind, what+": "+o.Shape, replay())
 		return true
 	case v.Class == "MustReject" && o.Verdict == "ok":
@@ -171,12 +184,43 @@ func c09Judge(rep *Report, v *c09Vec, o *c09Obs) bool {
 	return false
 }
 
+// c09BodyWord says what the body of the resolver's answer held when its Close failed.
+func c09BodyWord(in *c09In) string {
+	switch in.Res {
+	case "ok", "slow":
+		return "complete"
+	case "truncated":
+		return "truncated"
+	case "readerr", "stallbody":
+		return "unfinished (" + in.Res + " at " + in.Rdpt + ")"
+	}
+	return "invalid (" + in.Res + ")"
+}
+
+// c09BodyDrift compares the life of the resolver's body as observed with the model's (the statement is
+// silent about it: a difference is drift).
+func c09BodyDrift(v *c09Vec, o *c09Obs) string {
+	if v.In.Entry != "artifact" || v.Pred.Body == "" {
+		return ""
+	}
+	if got := o.bodyState(); got != "" && got != v.Pred.Body {
+		return fmt.Sprintf("model: the body of the resolver's answer is %s when ParseResponse returns, observed: %s (%s)", v.Pred.Body, got, o.Variant)
+	}
+	if o.BodyCloses >= 0 && o.CloseLogged != v.Pred.Clog {
+		return fmt.Sprintf("model: close failure logged = %v, observed %v (%s)", v.Pred.Clog, o.CloseLogged, o.Variant)
+	}
+	return ""
+}
+
 type c09Stats struct {
 	mu       sync.Mutex
 	okByFam  map[string]int
 	bySite   map[string][3]int // vectors, panicked, returned
 	drift    int
 	variants int
+	// executions in which a body whose Close fails was closed: after a resolution that succeeds / that fails
+	// by the model; of those, the ones that returned an assertion; the failure seen in the log
+	closeErrPredOK, closeErrPredRefused, closeErrAssn, closeErrLogged int
 }
 
 func c09Load(t *testing.T, rep *Report) []*c09Vec {
@@ -198,13 +242,17 @@ func c09Setup() (*c09Ctx, func()) {
 	now := time.Now().UTC().Truncate(time.Millisecond)
 	saml.TimeNow = func() time.Time { return now }
 	saml.MaxIssueDelay = c09MaxDelay
-	return &c09Ctx{now: now}, func() { saml.TimeNow, saml.MaxIssueDelay = oldNow, oldMID }
+	// the library's default logger (where handleArtifactRequest and FetchMetadata report a body that could
+	// not be closed) writes to the harness's sink for the duration
+	oldLog := logger.DefaultLogger
+	logger.DefaultLogger = log.New(c09Logs, "", 0)
+	return &c09Ctx{now: now}, func() { saml.TimeNow, saml.MaxIssueDelay, logger.DefaultLogger = oldNow, oldMID, oldLog }
 }
 
 func TestC09(t *testing.T) {
 	rep := NewReport("C09")
 	defer rep.Finish(t)
-	rep.Rule = "every terminal state of spec/Totality.tla is one document: a subset of the optional parts of a Response+Assertion, SOAP/ArtifactResponse envelope, LogoutResponse, AuthnRequest, SP or IdP metadata document (all present values valid, IdP signature re-applied with the harness key after removing parts, assertion optionally encrypted to the SP), or a framing class, or a resolver behaviour, or a trust configuration of the SP (metadata certificates: one, several, none, an unparsable one; pinned certificate; pinned SHA-256 / SHA-512 fingerprint) crossed with the content of the KeyInfo of every signature in the message (11 classes, the signature value staying the trusted signer's), or a nesting shape (chain, ladder, wide-then-deep, sibling-after) x depth class (999 / 1000 / 1001 / 5000 / 400000 levels; thorough also 12000-20000 and 1000000) of EntitiesDescriptor elements, or the content of an EncryptedAssertion (certificate hint in the KeyInfo of its EncryptedKey: none / the SP's own / another RSA / ECDSA / Ed25519 certificate / base64 that is no certificate / text that is no PEM body / empty element / X509Data without certificate / two certificates in either order; EncryptedKey inside EncryptedData, next to it, or both; key transport rsa-oaep-mgf1p / rsa-1_5 / xmlenc11 rsa-oaep; block cipher AES-CBC / 3DES-CBC / AES-GCM; EncryptedKey complete, without EncryptionMethod, without CipherValue) genuinely encrypted to the SP, in a signed or unsigned Response around a signed or unsigned assertion, or an artifact resolution endpoint that stalls (never answers / answers the headers only) while the call is bounded by the SP's client timeout or only by the deadline or the cancellation of the incoming request's context (sp.HTTPClient nil or a client without timeout; the endpoint is an http.RoundTripper that gives up only when the request's context is done, and a loopback TCP listener that accepts and never writes: ParseResponse must have returned 25 s after the 300 ms bound); it is built concretely, run through the real consuming API inside a panic barrier and a 10 s watchdog (documents deep enough to exhaust the stack in a child process, deflate bombs serially under a heap-growth bound) and judged by the statement's oracle; non-trivial = every vector (class Total: must return a result or an error; MustReject: input inflating past 10 MB)"
+	rep.Rule = "every terminal state of spec/Totality.tla is one document: a subset of the optional parts of a Response+Assertion, SOAP/ArtifactResponse envelope, LogoutResponse, AuthnRequest, SP or IdP metadata document (all present values valid, IdP signature re-applied with the harness key after removing parts, assertion optionally encrypted to the SP), or a framing class, or a resolver behaviour, or a trust configuration of the SP (metadata certificates: one, several, none, an unparsable one; pinned certificate; pinned SHA-256 / SHA-512 fingerprint) crossed with the content of the KeyInfo of every signature in the message (11 classes, the signature value staying the trusted signer's), or a nesting shape (chain, ladder, wide-then-deep, sibling-after) x depth class (999 / 1000 / 1001 / 5000 / 400000 levels; thorough also 12000-20000 and 1000000) of EntitiesDescriptor elements, or the content of an EncryptedAssertion (certificate hint in the KeyInfo of its EncryptedKey: none / the SP's own / another RSA / ECDSA / Ed25519 certificate / base64 that is no certificate / text that is no PEM body / empty element / X509Data without certificate / two certificates in either order; EncryptedKey inside EncryptedData, next to it, or both; key transport rsa-oaep-mgf1p / rsa-1_5 / xmlenc11 rsa-oaep; block cipher AES-CBC / 3DES-CBC / AES-GCM; EncryptedKey complete, without EncryptionMethod, without CipherValue) genuinely encrypted to the SP, in a signed or unsigned Response around a signed or unsigned assertion, or an artifact resolution endpoint that stalls (never answers / answers the headers only) while the call is bounded by the SP's client timeout or only by the deadline or the cancellation of the incoming request's context (sp.HTTPClient nil or a client without timeout; the endpoint is an http.RoundTripper that gives up only when the request's context is done, and a loopback TCP listener that accepts and never writes: ParseResponse must have returned 25 s after the 300 ms bound), or the life of the body of the resolver's answer (an in-process RoundTripper hands out bodies whose Read fails, or stalls, before the first byte / half-way / after the last byte in place of the end of the stream, and whose Close fails - after a complete valid, a truncated, an unfinished or an invalid body, around every subset of the envelope's parts and several assertion sequences: the statement's nil-exactly-when-error, error type and constant message are judged at the return of ParseResponse whatever Close returned; that the body is closed exactly once, not read afterwards and a close failure logged is the model's prediction only); it is built concretely, run through the real consuming API inside a panic barrier and a 10 s watchdog (documents deep enough to exhaust the stack in a child process, deflate bombs serially under a heap-growth bound) and judged by the statement's oracle; non-trivial = every vector (class Total: must return a result or an error; MustReject: input inflating past 10 MB)"
 	vs := c09Load(t, rep)
 	if len(vs) == 0 {
 		rep.Break("no vectors")
@@ -249,13 +297,32 @@ func TestC09(t *testing.T) {
 				}
 				st.bySite[site] = e
 			}
-			if o.Verdict == "ok" && !bad {
+			// (a returned assertion shows that the harness built a valid message also when the execution is a
+			// finding for another reason: the vacuity guards below are about the harness, not about the code)
+			returnedAssn := c09RespEntries[v.In.Entry] && !o.AssnNil && o.Panic == "" && !o.Hang
+			if (o.Verdict == "ok" && !bad) || returnedAssn {
 				st.okByFam[v.In.Fam]++
 			}
 			if !bad && o.Verdict != v.Pred.Verdict && v.In.Framing != "deep" {
 				st.drift++
 				rep.DriftCase(k, fmt.Sprintf("model predicted %s at %s, the code returned %s (%s)", v.Pred.Verdict, v.Pred.Step, o.Verdict, o.Variant),
 					map[string]any{"in": v.In, "observed": o})
+			} else if d := c09BodyDrift(v, o); !bad && d != "" {
+				st.drift++
+				rep.DriftCase(k, d, map[string]any{"in": v.In, "observed": o})
+			}
+			if v.In.Close == "err" && o.BodyCloses > 0 {
+				if v.Pred.Verdict == "ok" {
+					st.closeErrPredOK++
+				} else {
+					st.closeErrPredRefused++
+				}
+				if returnedAssn {
+					st.closeErrAssn++
+				}
+				if o.CloseLogged {
+					st.closeErrLogged++
+				}
 			}
 		}
 	}
@@ -322,7 +389,7 @@ func TestC09(t *testing.T) {
 	rep.Extra["family_seconds_summed_over_workers"] = famSec
 	rep.Extra["phase_seconds"] = map[string]float64{"parallel": tPar.Seconds(), "deflate_bombs": tSerial.Seconds(), "child_processes_overlapping_parallel": tChildren.Seconds()}
 
-	for _, fam := range []string{"assn", "resp", "art", "resolver", "frame", "logout", "authn", "spmd", "idpmd", "trust", "nest", "enc"} {
+	for _, fam := range []string{"assn", "resp", "art", "resolver", "body", "frame", "logout", "authn", "spmd", "idpmd", "trust", "nest", "enc"} {
 		if st.okByFam[fam] == 0 {
 			rep.Break("vacuous: no document of family %q was accepted by the real code - the harness does not build valid messages", fam)
 		}
@@ -332,6 +399,12 @@ func TestC09(t *testing.T) {
 			rep.Break("vacuous: no vector reaches the dereference site %s with its part absent", site)
 		}
 	}
+	// (about the harness only: the same messages with a body that closes cleanly are the accepted ones of family "body")
+	if st.closeErrPredOK == 0 || st.closeErrPredRefused == 0 {
+		rep.Break("vacuous: a body whose Close fails was never closed after an artifact resolution that succeeds (%d) or after one that fails (%d) - the harness does not exercise the deferred Close", st.closeErrPredOK, st.closeErrPredRefused)
+	}
+	rep.Extra["resolver_body_close_failures"] = map[string]int{"after_resolution_that_succeeds": st.closeErrPredOK, "after_resolution_that_fails": st.closeErrPredRefused,
+		"assertion_returned": st.closeErrAssn, "seen_in_the_log": st.closeErrLogged}
 	if rep.Classes["Total"] == 0 || rep.Classes["MustReject"] == 0 {
 		rep.Break("vacuous: no Total or no MustReject vectors")
 	}
@@ -350,6 +423,7 @@ func TestC09(t *testing.T) {
 	rep.Extra["accepted_by_family"] = st.okByFam
 	rep.Note("documents executed: %d vectors, %d concrete executions; %d in a child process, %d serially under the heap bound", len(vs), st.variants, len(deep), len(serial))
 	rep.Assume("raw coverage-guided byte fuzzing is outside this technique (DESIGN.md section 11): the byte string is represented by framing classes with several concrete representatives each, the parsers' internals (encoding/xml, etree, xml-roundtrip-validator) are not explored")
+	rep.Assume("a failure of response.Body.Close() is provoked through the in-process RoundTripper only (the body of a real connection is net/http's own: in the loopback-listener variant of the stalled resolver Close cannot be made to fail and is not observed); the failing Close returns a plain error after the body was read as far as the class says")
 	rep.Assume("configuration is not input: the ServiceProvider has IDPMetadata, key and certificate set and trusts the IdP in one of the documented ways (metadata certificates, or IDPCertificate alone, or IDPCertificateFingerprint together with IDPCertificateFingerprintAlgorithm; mixed or partial settings are not covered); the IdentityProvider has a key, a certificate, a session provider and a service provider registry")
 }
 
